@@ -4,6 +4,7 @@
 pub mod stdspecs {
     use vstd::prelude::*;
     use std::borrow::Cow;
+    use std::alloc::Allocator;
     use super::spec::*;
     verus! {
 
@@ -18,6 +19,16 @@ pub mod stdspecs {
         requires #[trigger] cloned::<u8>(a, b)
         ensures a == b
     {}
+
+    // ---- Vec::extend from a shared slice / vector copies the elements -------------------------------------------
+    /// the values an `IntoIterator<Item = &T>` yields, in order
+    pub uninterp spec fn ref_items<'a, T: 'a, I: IntoIterator<Item = &'a T>>(it: I) -> Seq<T>;
+    pub assume_specification<'a, T: Copy + 'a, A: Allocator, I: IntoIterator<Item = &'a T>>[ <Vec<T, A> as Extend<&'a T>>::extend::<I> ](v: &mut Vec<T, A>, it: I)
+        ensures final(v)@ == old(v)@ + ref_items::<T, I>(it);
+    pub broadcast axiom fn axiom_ref_items_slice<'a, T>(s: &'a [T])
+        ensures #[trigger] ref_items::<T, &'a [T]>(s) == s@;
+    pub broadcast axiom fn axiom_ref_items_vec<'a, T>(s: &'a Vec<T>)
+        ensures #[trigger] ref_items::<T, &'a Vec<T>>(s) == s@;
 
     // ---- String::from_utf8_lossy / Cow<str> -> String ------------------------------------------------
     /// String::from_utf8_lossy as an uninterpreted function of the bytes
